@@ -145,7 +145,7 @@ def run_tlc(module: str, cfg: str, *, workers: int | str = "auto", simulate: str
         m = _TAG_RE.match(line)
         if m:
             try:
-                res.tagged.setdefault(m.group(1), []).append(_decode_tla_value(m.group(2)))
+                res.tagged.setdefault(m.group(1), []).append((m.group(2), _decode_tla_value(m.group(2))))
             except Exception as exc:  # noqa: BLE001
                 raise TLCError(f"cannot decode tagged line: {line[:300]}") from exc
             continue
@@ -175,12 +175,20 @@ def run_tlc(module: str, cfg: str, *, workers: int | str = "auto", simulate: str
         if m:
             res.coverage[m.group(1)] = res.coverage.get(m.group(1), 0) + int(m.group(4))
             continue
+    # TLC's workers print in no fixed order: sort by the printed text, so that whatever the
+    # harness chooses by index or by seeded sampling is reproducible
+    for tag, items in res.tagged.items():
+        items.sort(key=lambda x: x[0])
+        res.tagged[tag] = [x[1] for x in items]
     if not res.ok:
         res.output = out
         return res
     hard_errors = [ln for ln in out.splitlines() if ln.startswith("Error:")]
     if hard_errors or proc.returncode != 0:
         # simulation mode ends with exit 0 only when num is reached; anything else is machinery
+        lines = [ln for ln in out.splitlines() if not ln.startswith(('<<"', "<<'"))]
+        first = next((i for i, ln in enumerate(lines) if ln.startswith("Error:")), 0)
         raise TLCError("TLC failed: " + " | ".join(hard_errors[:5]) + f" (exit {proc.returncode})\n"
-                       + "\n".join(out.splitlines()[-40:]))
+                       + "\n".join(ln[:600] for ln in lines[first:first + 25]) + "\n...\n"
+                       + "\n".join(lines[-12:]))
     return res
